@@ -5,7 +5,8 @@ From RU Require Import Base.Prelude Base.Utf8 Model.AsciiSet Gen.Tables Model.Pe
   Spec.Infra Spec.MimeSniff Spec.Fetch
   Proofs.C02_Parts Proofs.C18_BodyRef Proofs.C17_Tables Proofs.C17_Total Proofs.C17_Decode Proofs.C17_Main
   Proofs.C17_Bridge Proofs.C17_Fragment Proofs.C17_Body Proofs.C17_BodyUrl
-  Proofs.C17_Header Proofs.C17_HeaderUrl Proofs.C17_Mime Proofs.C17_Partial.
+  Proofs.C17_Header Proofs.C17_HeaderUrl Proofs.C17_Mime Proofs.C17_Partial
+  Proofs.C17_HeaderQ Proofs.C17_Full Proofs.C17_Known.
 
 (* the byte classes and literals of data-url/src/lib.rs, regenerated from the source on every run, are
    the Standards': the C0-control / query / fragment percent-encode sets (as url/src/parser.rs defines
@@ -273,8 +274,7 @@ Print Assumptions C17_mime_type.
 
 (* ---- C17 for the class "opaque path, header without '?', body outside K3": MIME type record, body
    bytes (base64 or not), fragment, and failure (no comma / invalid base64) all agree.
-   STILL MISSING for C17_statement: headers with '?' (outside K2), and the passage from these
-   hypotheses (stated on what parse_scheme leaves after "data:") to ~ Known_C17 s. ---- *)
+   (superseded by C17_opaque / C17_partial2 below, kept because other files may use it) ---- *)
 Theorem C17_partial : forall dbg hp ho hd s rem u, usv_list s ->
   parse_scheme CUrlParser (input_new_trim_c0 s) = Some (s_data, rem) -> inp_split_prefix_char 47 rem = None ->
   parse_url dbg hp ho hd None None s = POk u ->
@@ -303,6 +303,77 @@ Proof.
   cbv zeta. eexists. eexists. split; [apply usv_list_b; vm_compute; reflexivity|].
   split; [vm_compute; reflexivity|]. split; [vm_compute; reflexivity|]. split; [vm_compute; reflexivity|].
   eexists. eexists. split; [vm_compute; reflexivity|]. vm_compute. repeat split.
+Qed.
+
+(* ---- headers with '?' ---- *)
+
+(* byte level: a header h (no '#') whose text without tab / newline is a ++ "?" ++ q (a without '?'),
+   outside K2: parse_header computes what steps 6, 11, 12 make of  C0-encode(a) "?" query-encode(q),
+   which is what the serializer writes (opaque path, then query) *)
+Theorem C17_header_query : forall h a q, bytes h -> ~ In 35 h ->
+  filter C02_Enc.not_tnl h = a ++ 63 :: q -> ~ In 63 a ->
+  k17_query_space (filter C02_Enc.not_tnl h) = false ->
+  header_of h = fetch_header (encode T_CONTROLS a ++ 63 :: encode T_QUERY q).
+Proof. exact header_bytes_q. Qed.
+Print Assumptions C17_header_query.
+
+(* every opaque-path data: URL whose header is outside K2 and whose body is outside K3 *)
+Theorem C17_opaque : forall dbg hp ho hd s rem u, usv_list s ->
+  parse_scheme CUrlParser (input_new_trim_c0 s) = Some (s_data, rem) -> inp_split_prefix_char 47 rem = None ->
+  parse_url dbg hp ho hd None None s = POk u ->
+  (forall h B, find_comma_before_fragment (utf8_encode rem) = Ok (Some (h, B)) ->
+               k17_query_space (filter C02_Enc.not_tnl h) = false /\ k17_split_escape B = false) ->
+  fetch_view (process_and_decode s) = fetch_of_url u.
+Proof. exact opaque_is_fetch. Qed.
+Print Assumptions C17_opaque.
+
+(* K2 and K3 read on the UTF-8 bytes are K2 and K3 read on the code points *)
+Theorem C17_known_utf8 : forall X, usv_list X ->
+  k17_query_space (utf8_encode X) = k17_query_space X /\ k17_split_escape (utf8_encode X) = k17_split_escape X.
+Proof. exact (fun X H => conj (query_space_utf8 X H) (split_escape_utf8 X H)). Qed.
+Print Assumptions C17_known_utf8.
+
+(* ---- C17 outside Known_C17: C17_statement with the premise "url_is_data u" replaced by "parse_scheme
+   reads the scheme data from the trimmed input" (the URL parser's own first step).  MIME type record,
+   body, fragment and failure agree for EVERY such input outside the computable class Known_C17. ---- *)
+Theorem C17_partial2 : forall dbg hp ho hd s rem u, usv_list s ->
+  parse_scheme CUrlParser (input_new_trim_c0 s) = Some (s_data, rem) ->
+  parse_url dbg hp ho hd None None s = POk u ->
+  ~ Known_C17 s ->
+  fetch_view (process_and_decode s) = fetch_of_url u.
+Proof. exact outside_known_is_fetch. Qed.
+Check C17_partial2 : forall dbg hp ho hd s rem u, usv_list s ->
+  parse_scheme CUrlParser (input_new_trim_c0 s) = Some (s_data, rem) ->
+  parse_url dbg hp ho hd None None s = POk u ->
+  ~ Known_C17 s ->
+  fetch_view (process_and_decode s) = fetch_of_url u.
+Print Assumptions C17_partial2.
+
+(* what is STILL MISSING for C17_statement, exactly: that the scheme of the URL record the parser returns
+   is the scheme text parse_scheme read (scheme_of_parse, Proofs/C17_Known.v; true by construction of the
+   parser - every later step only appends to, or truncates behind, "scheme:" - proved for opaque paths
+   in parse_opaque_explicit, not proved for the authority / path / file parsers).  Given that, the
+   full statement follows. *)
+Theorem C17_modulo_scheme :
+  (forall (dbg : bool) (hp ho : list N -> result host) (hd : host -> list N) (s sch rem : list N) (u : url),
+     usv_list s -> parse_scheme CUrlParser (input_new_trim_c0 s) = Some (sch, rem) ->
+     parse_url dbg hp ho hd None None s = POk u -> url_is_data u = true -> sch = s_data)
+  -> C17_statement.
+Proof. exact statement_modulo_scheme. Qed.
+Print Assumptions C17_modulo_scheme.
+
+(* the premises of C17_partial2 hold for "data:a/b;p=q?x%20;base64,QUJD#z" (a header with '?', base64) and
+   both sides agree on a non-trivial result *)
+Example C17_partial2_premises :
+  let s := [100;97;116;97;58;97;47;98;59;112;61;113;63;120;37;50;48;59;98;97;115;101;54;52;44;81;85;74;68;35;122] in
+  exists rem u, usv_list s
+    /\ parse_scheme CUrlParser (input_new_trim_c0 s) = Some (s_data, rem)
+    /\ parse_url true toy_hp toy_hp toy_hd None None s = POk u
+    /\ known_c17 s = 0
+    /\ fetch_of_url u = FOk (mk_mime_type [97] [98] [([112], [113;63;120;37;50;48])]) [65;66;67] (Some [122]).
+Proof.
+  cbv zeta. eexists. eexists. split; [apply usv_list_b; vm_compute; reflexivity|].
+  split; [vm_compute; reflexivity|]. split; [vm_compute; reflexivity|]. split; vm_compute; reflexivity.
 Qed.
 
 (* inside Known_C17 the statement fails: one witness per finding (toy host functions; none of the
